@@ -2049,3 +2049,391 @@ Proof.
   pose proof (engine_trace _ _ _ _ _ _ _ _ _ HG (sub_refl _) Ho E) as T. rewrite E.
   intros H; injection H as <- <- <-. exact T.
 Qed.
+
+(* ---------------------------------------------------------------- the requests of normalisation *)
+Lemma norm_text_trace f t s t' s' : nofault s -> norm_text cs false f t s = (Some t', s') ->
+  extends s s' (map (req_event cs) (text_req (t_val t))).
+Proof.
+  intros Hnf. unfold norm_text. destruct (t_val t) as [[|c x]|].
+  - intros H; injection H as <- <-. apply extends_refl.
+  - rewrite (alloc_nf _ _ _ Hnf). intros H; injection H as <- <-. apply push_alloc_extends.
+  - intros H; injection H as <- <-. apply extends_refl.
+Qed.
+
+Lemma n_text_trace cond f k get set m done s m' done' s' : nofault s ->
+  n_text cs cond f (2 ^ k) get set m done s = (Some (m', done'), s') ->
+  extends s s' (map (req_event cs) (if cond then text_req (t_val (get m)) else []))
+  /\ done' = (if cond && is_some (t_val (get m)) then N.lor done (2 ^ k) else done).
+Proof.
+  intros Hnf. unfold n_text. destruct cond; cbn [andb].
+  - destruct (t_val (get m)) as [x|] eqn:Ev; cbn [is_some].
+    + destruct (norm_text cs false f (get m) s) as [[t|] z] eqn:E; [|discriminate].
+      intros H; injection H as <- <- <-. split; [|reflexivity].
+      pose proof (norm_text_trace _ _ _ _ _ Hnf E) as T. rewrite Ev in T. exact T.
+    + intros H; injection H as <- <- <-. split; [apply extends_refl|reflexivity].
+  - intros H; injection H as <- <- <-. split; [apply extends_refl|reflexivity].
+Qed.
+
+Definition nhost_plan (mask : N) (u : uri) : list areq :=
+  if bit mask M_HOST then
+    match ipFuture u with
+    | Some _ => text_req (ipFuture u)
+    | None => match hostText u, ip4 u, ip6 u with
+              | Some _, None, None => text_req (hostText u)
+              | _, _, _ => []
+              end
+    end
+  else [].
+Definition nhost_done (mask : N) (u : uri) (done : N) : N :=
+  if bit mask M_HOST then
+    match ipFuture u with
+    | Some _ => N.lor done 4
+    | None => match hostText u, ip4 u, ip6 u with
+              | Some _, None, None => N.lor done 4
+              | _, _, _ => done
+              end
+    end
+  else done.
+
+Lemma n_host_trace mask m done s m' done' s' : nofault s ->
+  n_host cs mask m done s = (Some (m', done'), s') ->
+  extends s s' (map (req_event cs) (nhost_plan mask (erase m))) /\ done' = nhost_done mask (erase m) done.
+Proof.
+  intros Hnf. unfold n_host, nhost_plan, nhost_done. destruct (bit mask M_HOST).
+  2:{ intros H; injection H as <- <- <-. split; [apply extends_refl|reflexivity]. }
+  change (ipFuture (erase m)) with (t_val (m_ipFuture m)).
+  change (hostText (erase m)) with (t_val (m_hostText m)).
+  change (ip4 (erase m)) with (match m_ip4 m with Some (b, _) => Some b | None => None end).
+  change (ip6 (erase m)) with (match m_ip6 m with Some (b, _) => Some b | None => None end).
+  destruct (t_val (m_ipFuture m)) as [x|] eqn:Ef.
+  - destruct (norm_text cs false lowercase (m_ipFuture m) s) as [[t|] z] eqn:E; [|discriminate].
+    intros H; injection H as <- <- <-. split; [|reflexivity].
+    pose proof (norm_text_trace _ _ _ _ _ Hnf E) as T. rewrite Ef in T. exact T.
+  - destruct (t_val (m_hostText m)) as [x|] eqn:Eh.
+    + destruct (m_ip4 m) as [[? ?]|]; [intros H; injection H as <- <- <-; split; [apply extends_refl|reflexivity]|].
+      destruct (m_ip6 m) as [[? ?]|]; [intros H; injection H as <- <- <-; split; [apply extends_refl|reflexivity]|].
+      destruct (norm_text cs false (fun x : text => lowercase_except_pct (fix_pct x)) (m_hostText m) s) as [[t|] z] eqn:E; [|discriminate].
+      intros H; injection H as <- <- <-. split; [|reflexivity].
+      pose proof (norm_text_trace _ _ _ _ _ Hnf E) as T. rewrite Eh in T. exact T.
+    + destruct (m_ip4 m) as [[? ?]|], (m_ip6 m) as [[? ?]|];
+        intros H; injection H as <- <- <-; split; try apply extends_refl; reflexivity.
+Qed.
+
+Lemma norm_segs_malloc_trace rest : forall acc s segs s', nofault s ->
+  norm_segs_malloc cs acc rest s = (true, segs, s') ->
+  extends s s' (map (req_event cs) (segs_req (map sg_text rest))).
+Proof.
+  induction rest as [|sg r IH]; intros acc s segs s' Hnf; cbn [norm_segs_malloc map].
+  - intros H; injection H as <- <-. apply extends_refl.
+  - unfold segs_req. cbn [flat_map]. destruct (sg_text sg) as [|c x] eqn:Et.
+    + intros H. apply (IH _ _ _ _ Hnf H).
+    + rewrite (alloc_nf _ _ _ Hnf). intros H.
+      rewrite map_app. change (map (req_event cs) (text_req (Some (c :: x)))) with [EvMalloc (tlen (c :: x) * cs) true].
+      eapply extends_trans; [apply (push_alloc_extends false (tlen (c :: x) * cs) s)|].
+      apply (IH _ _ _ _ (st_le_nofault _ _ (push_alloc_le _ _ _) Hnf) H).
+Qed.
+
+(* whether the dot-segment walk allocates the trailing empty segment: ".." at the end with two
+   segments before it *)
+Fixpoint rds_alloc (rel : bool) (kept rest : list text) {struct rest} : bool :=
+  match rest with
+  | [] => false
+  | w :: nxt =>
+    if seg_dot w then
+      let essential :=
+        rel && (match kept with [] => true | _ => false end)
+        && (match nxt with n1 :: _ => has_colon n1 | [] => false end) in
+      if essential then rds_alloc rel (w :: kept) nxt
+      else match nxt with _ :: _ => rds_alloc rel kept nxt | [] => false end
+    else if seg_dotdot w then
+      let keep := rel && (match kept with [] => true | p :: _ => seg_dotdot p end) in
+      if keep then rds_alloc rel (w :: kept) nxt
+      else match kept with
+           | p :: pp :: kk => match nxt with _ :: _ => rds_alloc rel (pp :: kk) nxt | [] => true end
+           | [p] => match nxt with _ :: _ => rds_alloc rel [] nxt | [] => false end
+           | [] => match nxt with _ :: _ => rds_alloc rel [] nxt | [] => false end
+           end
+    else rds_alloc rel (w :: kept) nxt
+  end.
+
+Lemma drop_seg_aext owned sg s : aextends s (drop_seg owned sg s) [].
+Proof.
+  unfold drop_seg. eapply (aextends_trans _ _ _ [] []); [|apply free_blk_aextends].
+  destruct owned; [|apply aextends_refl]. destruct (sg_text sg); [apply aextends_refl|].
+  destruct (sg_blk sg); [apply free_blk_aextends|apply bad_free_aextends].
+Qed.
+Lemma blank_state_aext owned sg s : aextends s (blank_state owned sg s) [].
+Proof.
+  unfold blank_state, blank_seg. cbn [snd]. destruct owned; [|apply aextends_refl].
+  destruct (sg_text sg); [apply aextends_refl|]. destruct (sg_blk sg); [apply free_blk_aextends|apply bad_free_aextends].
+Qed.
+Lemma push_calloc_aext sz s : aextends s (push_alloc true sz s) [EvCalloc sz true].
+Proof. reflexivity. Qed.
+
+Ltac sle :=
+  repeat first [ apply st_le_refl
+               | (eapply st_le_trans; [|apply drop_seg_le])
+               | (eapply st_le_trans; [|apply blank_state_le])
+               | (eapply st_le_trans; [|apply push_alloc_le]) ].
+Ltac aext :=
+  repeat first [ apply aextends_refl
+               | (eapply (aextends_trans _ _ _ [] []); [|apply drop_seg_aext])
+               | (eapply (aextends_trans _ _ _ [] []); [|apply blank_state_aext]) ].
+
+Lemma rds_walk_m_trace rel host abs owned rest : forall kept s segs' s', nofault s ->
+  rds_walk_m rel host abs owned kept rest s = (true, segs', s') ->
+  aextends s s' (map (req_event cs) (if rds_alloc rel (map sg_text kept) (map sg_text rest) then [RNode true] else [])).
+Proof.
+  induction rest as [|w nxt IH]; intros kept s segs' s' Hnf.
+  - cbn [rds_walk_m rds_alloc map]. intros H; injection H as <- <-. apply aextends_refl.
+  - cbn [rds_walk_m rds_alloc map].
+    Ltac rdt_rec IH Hnf s0 :=
+      match goal with
+      | |- rds_walk_m _ _ _ _ ?k ?r ?s1 = _ -> _ =>
+        let L := fresh "L" in let H := fresh "H" in
+        assert (st_le s0 s1) as L by sle;
+        intros H; apply (aextends_trans s0 s1 _ [] _); [aext|];
+        exact (IH k s1 _ _ (st_le_nofault _ _ L Hnf) H)
+      end.
+    Ltac rdt_leaf :=
+      rewrite ?blank_seg_eq; let H := fresh "H" in intros H; injection H as <- <-; cbn [map]; aext.
+    destruct (seg_dot (sg_text w)) eqn:Ed; [|destruct (seg_dotdot (sg_text w)) eqn:Edd].
+    + destruct kept as [|p kk]; destruct nxt as [|n1 nn]; cbn [map andb];
+        rewrite ?andb_false_r, ?andb_true_r; cbn [andb].
+      * destruct host; rdt_leaf.
+      * destruct (rel && has_colon (sg_text n1)); rdt_rec IH Hnf s.
+      * rdt_leaf.
+      * rdt_rec IH Hnf s.
+    + destruct kept as [|p [|pp kk]]; destruct nxt as [|n1 nn]; cbn [map andb];
+        rewrite ?andb_false_r, ?andb_true_r; cbn [andb].
+      * destruct rel; [rdt_rec IH Hnf s|]. destruct abs; rdt_leaf.
+      * destruct rel; rdt_rec IH Hnf s.
+      * destruct (rel && seg_dotdot (sg_text p)); [rdt_rec IH Hnf s|]. destruct abs; rdt_leaf.
+      * destruct (rel && seg_dotdot (sg_text p)); rdt_rec IH Hnf s.
+      * destruct (rel && seg_dotdot (sg_text p)); [rdt_rec IH Hnf s|].
+        rewrite (alloc_nf _ _ _ Hnf). intros H; injection H as <- <-. cbn [map req_event].
+        eapply (aextends_trans _ _ _ [EvCalloc SEG_SIZE true] []); [|apply drop_seg_aext].
+        eapply (aextends_trans _ _ _ [EvCalloc SEG_SIZE true] []); [|apply drop_seg_aext].
+        apply push_calloc_aext.
+      * destruct (rel && seg_dotdot (sg_text p)); rdt_rec IH Hnf s.
+    + rdt_rec IH Hnf s.
+Qed.
+
+Lemma remove_dot_segments_m_trace rel owned m s m' s' : nofault s ->
+  remove_dot_segments_m rel owned m s = (true, m', s') ->
+  aextends s s' (map (req_event cs) (if rds_alloc rel [] (map sg_text (m_segs m)) then [RNode true] else [])).
+Proof.
+  intros Hnf. unfold remove_dot_segments_m. destruct (m_segs m) as [|sg r] eqn:Es.
+  - intros H; injection H as <- <-. apply aextends_refl.
+  - destruct (rds_walk_m rel (m_host_set m) (m_abs m) owned [] (sg :: r) s) as [[ok segs] z] eqn:E.
+    intros H; injection H as -> <- <-. apply (rds_walk_m_trace _ _ _ _ _ _ _ _ _ Hnf E).
+Qed.
+
+Lemma fix_empty_trail_m_aext m s m' s' : fix_empty_trail_m m s = (m', s') -> aextends s s' [].
+Proof.
+  unfold fix_empty_trail_m. destruct (negb (m_host_set m)).
+  - destruct (m_segs m) as [|sg [|sg2 r]].
+    + intros H; injection H as <- <-. apply aextends_refl.
+    + destruct (sg_text sg); intros H; injection H as <- <-; [apply free_blk_aextends|apply aextends_refl].
+    + intros H; injection H as <- <-. apply aextends_refl.
+  - intros H; injection H as <- <-. apply aextends_refl.
+Qed.
+
+Definition rds_plan (u : uri) : list areq :=
+  let rel := negb (is_some (scheme u)) && negb (absolutePath u) && negb (is_host_set u) in
+  if rds_alloc rel [] (map fix_pct (pathSegs u)) then [RNode true] else [].
+Definition npath_plan (mask : N) (u : uri) : list areq :=
+  if bit mask M_PATH then segs_req (pathSegs u) ++ rds_plan u else [].
+
+Lemma n_path_trace mask m done s m' done' s' : nofault s ->
+  n_path cs mask m done s = (Some (m', done'), s') ->
+  aextends s s' (map (req_event cs) (npath_plan mask (erase m)))
+  /\ done' = (if bit mask M_PATH then N.lor done 8 else done).
+Proof.
+  intros Hnf. unfold n_path, n_path_full, npath_plan, rds_plan. destruct (bit mask M_PATH).
+  2:{ intros H; injection H as <- <- <-. split; [apply aextends_refl|reflexivity]. }
+  cbv zeta.
+  destruct (norm_segs_malloc_nf cs (m_segs m) [] s Hnf) as (segs1 & s1 & E1 & V1 & O1 & L1 & ND1 & F1).
+  rewrite E1. cbn [rev app].
+  set (rel := negb (is_some (t_val (m_scheme m))) && negb (m_abs m) && negb (m_host_set m)).
+  set (ow := false || negb (N.land (N.lor done B_PATH) B_PATH =? 0)%N).
+  pose proof (st_le_nofault _ _ L1 Hnf) as Hnf1.
+  destruct (remove_dot_segments_m_nf rel ow (set_m_segs segs1 m) s1 Hnf1) as (segs2 & s2 & E2 & R2 & S2 & L2).
+  rewrite E2.
+  destruct (fix_empty_trail_m (set_m_segs segs2 (set_m_segs segs1 m)) s2) as [m3 s3] eqn:E3.
+  intros H; injection H as <- <- <-. split; [|reflexivity].
+  rewrite map_app.
+  eapply aextends_trans.
+  - apply extends_aextends; [|exact (norm_segs_malloc_trace _ _ _ _ _ Hnf E1)].
+    apply Forall_forall. intros e He. apply in_map_iff in He. destruct He as (r & <- & _). destruct r as [| [|] | |]; reflexivity.
+  - rewrite <- (app_nil_r (map (req_event cs) _)). eapply aextends_trans; [|exact (fix_empty_trail_m_aext _ _ _ _ E3)].
+    pose proof (remove_dot_segments_m_trace _ _ _ _ _ _ Hnf1 E2) as T.
+    cbn [m_segs set_m_segs] in T. rewrite V1 in T. exact T.
+Qed.
+
+Definition normalize_plan_b (mask : N) (u : uri) : list areq :=
+  let c1 := bit mask M_SCHEME in
+  let u1 := F_text c1 lowercase scheme set_scheme u in
+  let d1 := if c1 && is_some (scheme u) then N.lor 0 (2 ^ 0) else 0%N in
+  let u2 := F_host mask u1 in
+  let d2 := nhost_done mask u1 d1 in
+  let c3 := bit mask M_USER_INFO in
+  let u3 := F_text c3 fix_pct userInfo set_userInfo u2 in
+  let d3 := if c3 && is_some (userInfo u2) then N.lor d2 (2 ^ 1) else d2 in
+  let u4 := F_path mask u3 in
+  let d4 := if bit mask M_PATH then N.lor d3 8 else d3 in
+  let c5 := bit mask M_QUERY in
+  let u5 := F_text c5 fix_pct query set_query u4 in
+  let d5 := if c5 && is_some (query u4) then N.lor d4 (2 ^ 4) else d4 in
+  let c6 := bit mask M_FRAGMENT in
+  let u6 := F_text c6 fix_pct fragment set_fragment u5 in
+  let d6 := if c6 && is_some (fragment u5) then N.lor d5 (2 ^ 5) else d5 in
+  (if c1 then text_req (scheme u) else []) ++ nhost_plan mask u1 ++ (if c3 then text_req (userInfo u2) else [])
+  ++ npath_plan mask u3 ++ (if c5 then text_req (query u4) else []) ++ (if c6 then text_req (fragment u5) else [])
+  ++ engine_plan d6 u6.
+
+Lemma all_alloc_reqs l : Forall (fun e => is_alloc_event e = true) (map (req_event cs) l).
+Proof.
+  apply Forall_forall. intros e He. apply in_map_iff in He. destruct He as (r & <- & _). destruct r as [| [|] | |]; reflexivity.
+Qed.
+
+Lemma normalize_m_borrowed_trace mask m s rc m' s' :
+  nofault s -> m_owner m = false -> mwf_host m -> text_blocks m = [] -> mask <> 0%N ->
+  normalize_m cs mask m s = (rc, m', s') ->
+  aextends s s' (map (req_event cs) (normalize_plan_b mask (erase m))).
+Proof.
+  intros Hnf Ho Hh Hb Hmask. rewrite (normalize_b_eq _ _ _ _ Ho). unfold normalize_b.
+  apply N.eqb_neq in Hmask. rewrite Hmask.
+  pose proof (G_start m s Hnf Hh Hb) as G0.
+  destruct (n_scheme_spec cs (bit mask M_SCHEME) lowercase lowercase_nil _ _ _ _ _ G0 (sub_refl _) Ho)
+    as (m1 & d1 & o1 & s1 & E1 & G1 & S1 & U1 & R1 & W1 & L1 & _).
+  destruct (n_host_spec cs mask _ _ _ _ _ G1 S1 W1) as (m2 & d2 & o2 & s2 & E2 & G2 & S2 & U2 & R2 & W2 & L2 & _).
+  destruct (n_user_spec cs (bit mask M_USER_INFO) fix_pct fix_pct_nil _ _ _ _ _ G2 S2 W2)
+    as (m3 & d3 & o3 & s3 & E3 & G3 & S3 & U3 & R3 & W3 & L3 & _).
+  destruct (n_path_spec cs mask _ _ _ _ _ G3 S3 W3) as (m4 & d4 & o4 & s4 & E4 & G4 & S4 & U4 & R4 & W4 & L4 & _).
+  destruct (n_query_spec cs (bit mask M_QUERY) fix_pct fix_pct_nil _ _ _ _ _ G4 S4 W4)
+    as (m5 & d5 & o5 & s5 & E5 & G5 & S5 & U5 & R5 & W5 & L5 & _).
+  destruct (n_frag_spec cs (bit mask M_FRAGMENT) fix_pct fix_pct_nil _ _ _ _ _ G5 S5 W5)
+    as (m6 & d6 & o6 & s6 & E6 & G6 & S6 & U6 & R6 & W6 & L6 & _).
+  destruct (engine_nf cs _ _ _ _ _ G6 S6 W6) as (m7 & d7 & o7 & s7 & E7 & _).
+  pose proof (st_le_nofault _ _ L1 Hnf) as N1. pose proof (st_le_nofault _ _ L2 N1) as N2.
+  pose proof (st_le_nofault _ _ L3 N2) as N3. pose proof (st_le_nofault _ _ L4 N3) as N4.
+  pose proof (st_le_nofault _ _ L5 N4) as N5.
+  destruct (n_text_trace _ _ 0 _ _ _ _ _ _ _ _ Hnf E1) as [T1 D1].
+  destruct (n_host_trace _ _ _ _ _ _ _ N1 E2) as [T2 D2].
+  destruct (n_text_trace _ _ 1 _ _ _ _ _ _ _ _ N2 E3) as [T3 D3].
+  destruct (n_path_trace _ _ _ _ _ _ _ N3 E4) as [T4 D4].
+  destruct (n_text_trace _ _ 4 _ _ _ _ _ _ _ _ N4 E5) as [T5 D5].
+  destruct (n_text_trace _ _ 5 _ _ _ _ _ _ _ _ N5 E6) as [T6 D6].
+  pose proof (engine_trace _ _ _ _ _ _ _ _ _ G6 S6 W6 E7) as T7.
+  rewrite E1, E2, E3. unfold n_path in E4.
+  destruct (n_path_full cs mask m3 d3 s3) as [[[r mf] df] sf]. injection E4 as -> ->.
+  rewrite E5, E6, E7. intros H; injection H as <- <- <-.
+  change (t_val (m_scheme m)) with (scheme (erase m)) in *.
+  change (t_val (m_userInfo m2)) with (userInfo (erase m2)) in *.
+  change (t_val (m_query m4)) with (query (erase m4)) in *.
+  change (t_val (m_fragment m5)) with (fragment (erase m5)) in *.
+  unfold normalize_plan_b. cbv zeta. unfold F_text. cbv beta in R1, R2, R3, R4, R5, R6.
+  rewrite <- R1. rewrite <- D1.
+  rewrite <- R2. rewrite <- D2.
+  rewrite <- R3. rewrite <- D3.
+  rewrite <- R4. rewrite <- D4.
+  rewrite <- R5. rewrite <- D5.
+  rewrite <- R6. rewrite <- D6.
+  rewrite !map_app.
+  eapply aextends_trans; [apply extends_aextends; [apply all_alloc_reqs|exact T1]|].
+  eapply aextends_trans; [apply extends_aextends; [apply all_alloc_reqs|exact T2]|].
+  eapply aextends_trans; [apply extends_aextends; [apply all_alloc_reqs|exact T3]|].
+  eapply aextends_trans; [exact T4|].
+  eapply aextends_trans; [apply extends_aextends; [apply all_alloc_reqs|exact T5]|].
+  eapply aextends_trans; [apply extends_aextends; [apply all_alloc_reqs|exact T6]|].
+  apply extends_aextends; [apply all_alloc_reqs|exact T7].
+Qed.
+
+(* an owned object is normalised in place: the only request is the trailing node of the dot-segment walk *)
+Lemma o_text_state cond f get set m done s m' done' s' :
+  o_text cs cond f get set m done s = (Some (m', done'), s') -> s' = s.
+Proof.
+  unfold o_text. destruct (cond && is_some (t_val (get m))).
+  - unfold norm_text. destruct (t_val (get m)); intros H; injection H as <- <- <-; reflexivity.
+  - intros H; injection H as <- <- <-; reflexivity.
+Qed.
+Lemma o_host_state mask m done s m' done' s' : o_host cs mask m done s = (Some (m', done'), s') -> s' = s.
+Proof.
+  unfold o_host, norm_text. destruct (bit mask M_HOST); [|intros H; injection H as <- <- <-; reflexivity].
+  destruct (t_val (m_ipFuture m)); [intros H; injection H as <- <- <-; reflexivity|].
+  destruct (t_val (m_hostText m)), (m_ip4 m) as [[? ?]|], (m_ip6 m) as [[? ?]|];
+    intros H; injection H as <- <- <-; reflexivity.
+Qed.
+
+Lemma o_path_trace mask m done s m' done' s' : nofault s ->
+  o_path cs mask m done s = (Some (m', done'), s') ->
+  aextends s s' (map (req_event cs) (if bit mask M_PATH then rds_plan (erase m) else [])).
+Proof.
+  intros Hnf. unfold o_path, o_path_full, rds_plan. destruct (bit mask M_PATH).
+  2:{ intros H; injection H as <- <- <-. apply aextends_refl. }
+  cbv zeta.
+  set (rel := negb (is_some (t_val (m_scheme m))) && negb (m_abs m) && negb (m_host_set m)).
+  set (ow := true || negb (N.land done B_PATH =? 0)%N).
+  destruct (remove_dot_segments_m_nf cs rel ow (set_m_segs (map fix_seg (m_segs m)) m) s Hnf) as (segs2 & s2 & E2 & R2 & S2 & L2).
+  rewrite E2.
+  destruct (fix_empty_trail_m (set_m_segs segs2 (set_m_segs (map fix_seg (m_segs m)) m)) s2) as [m3 s3] eqn:E3.
+  intros H; injection H as <- <- <-.
+  rewrite <- (app_nil_r (map (req_event cs) _)). eapply aextends_trans; [|exact (fix_empty_trail_m_aext _ _ _ _ E3)].
+  pose proof (remove_dot_segments_m_trace _ _ _ _ _ _ Hnf E2) as T.
+  cbn [m_segs set_m_segs] in T. destruct (fix_seg_blocks (m_segs m)) as (_ & _ & B3). rewrite B3 in T. exact T.
+Qed.
+
+Definition normalize_plan_o (mask : N) (u : uri) : list areq :=
+  if bit mask M_PATH then
+    rds_plan (F_text (bit mask M_USER_INFO) fix_pct userInfo set_userInfo
+               (F_host mask (F_text (bit mask M_SCHEME) lowercase scheme set_scheme u)))
+  else [].
+
+Lemma normalize_m_owned_trace mask m s rc m' s' :
+  nofault s -> m_owner m = true -> mwf m -> mask <> 0%N ->
+  normalize_m cs mask m s = (rc, m', s') ->
+  aextends s s' (map (req_event cs) (normalize_plan_o mask (erase m))).
+Proof.
+  intros Hnf Ho (Hh & Hnd & Hao & _) Hmask. rewrite (normalize_o_eq _ _ _ _ Ho). unfold normalize_o.
+  apply N.eqb_neq in Hmask. rewrite Hmask.
+  assert (Go m) as G0 by (split; [exact Hh|apply Hao; exact Ho]).
+  destruct (o_scheme_spec cs (bit mask M_SCHEME) lowercase lowercase_nil m 0%N s Hnf Ho G0) as (m1 & s1 & E1 & G1 & R1 & W1 & B1 & L1).
+  pose proof (o_text_state _ _ _ _ _ _ _ _ _ _ E1) as ->.
+  destruct (o_host_spec cs mask m1 0%N s Hnf W1 G1) as (m2 & s2 & E2 & G2 & R2 & W2 & B2 & L2).
+  pose proof (o_host_state _ _ _ _ _ _ _ E2) as ->.
+  destruct (o_user_spec cs (bit mask M_USER_INFO) fix_pct fix_pct_nil m2 0%N s Hnf W2 G2) as (m3 & s3 & E3 & G3 & R3 & W3 & B3 & L3).
+  pose proof (o_text_state _ _ _ _ _ _ _ _ _ _ E3) as ->.
+  destruct (o_path_spec cs mask m3 0%N s Hnf W3 G3) as (m4 & s4 & E4 & G4 & R4 & W4 & B4 & L4).
+  pose proof (st_le_nofault _ _ L4 Hnf) as N4.
+  destruct (o_query_spec cs (bit mask M_QUERY) fix_pct fix_pct_nil m4 0%N s4 N4 W4 G4) as (m5 & s5 & E5 & G5 & R5 & W5 & B5 & L5).
+  pose proof (o_text_state _ _ _ _ _ _ _ _ _ _ E5) as ->.
+  destruct (o_frag_spec cs (bit mask M_FRAGMENT) fix_pct fix_pct_nil m5 0%N s4 N4 W5 G5) as (m6 & s6 & E6 & G6 & R6 & W6 & B6 & L6).
+  pose proof (o_text_state _ _ _ _ _ _ _ _ _ _ E6) as ->.
+  pose proof (o_path_trace _ _ _ _ _ _ _ Hnf E4) as T4.
+  rewrite E1, E2, E3. unfold o_path in E4.
+  destruct (o_path_full cs mask m3 0%N s) as [[[r mf] df] sf]. injection E4 as -> ->.
+  rewrite E5, E6. intros H; injection H as <- <- <-.
+  unfold normalize_plan_o. rewrite <- R1, <- R2, <- R3. destruct (bit mask M_PATH); exact T4.
+Qed.
+
+End Sizes.
+
+(* the same requests in two character types: text sizes scale with the character size, structure
+   sizes do not change *)
+Definition event_chars (csize : N) (e : event) : event :=
+  match e with
+  | EvMalloc sz ok => EvMalloc (sz / csize) ok
+  | e => e
+  end.
+Definition trace_chars (csize : N) (tr : list event) : list event := map (event_chars csize) tr.
+
+Lemma trace_chars_plan csize plan : csize <> 0%N ->
+  Forall (fun r => match r with RText _ | RNode true => True | _ => False end) plan ->
+  trace_chars csize (map (req_event csize) plan) = map (req_event 1) plan.
+Proof.
+  intros Hc Hf. unfold trace_chars. rewrite map_map. apply map_ext_in. intros r Hr.
+  rewrite Forall_forall in Hf. specialize (Hf r Hr). destruct r as [n|[|]| |]; try contradiction; cbn [req_event event_chars].
+  - rewrite N.div_mul by exact Hc. rewrite N.mul_1_r. reflexivity.
+  - reflexivity.
+Qed.
